@@ -266,7 +266,7 @@ theorem rootName_svgDoc (ν : Nums) (tb nl : Bool) (body : List Piece) :
 theorem observed_svgDoc (ν : Nums) (tb nl : Bool) (cs : List PyStr) {body : List Piece} {s : Summary}
     (hb : Shape body s) :
     observed (svgDoc ν tb nl (cs.flatMap svgMarker ++ body)) =
-      ⟨s.circles, s.sectors, s.edgePaths, s.texts.map plainOf⟩ := by
+      ⟨s.circles, s.sectors, s.edgePaths, s.texts⟩ := by
   have hs1 : (py!"svg" == py!"defs") = false := by decide
   have hs2 : (py!"svg" == py!"circle") = false := by decide
   have hs3 : (py!"svg" == py!"path") = false := by decide
@@ -331,7 +331,7 @@ theorem svgDoc_lexOk {ν : Nums} (hν : SafeNums ν) (tb nl : Bool) {body : List
 theorem docMeets_svgDoc {ν : Nums} (hν : SafeNums ν) (tb nl : Bool) (cs : List PyStr) (hcs : AllSafe cs)
     {body : List Piece} {s : Summary} (hi : Inner body) (hs : Shape body s) :
     docMeets (render (svgDoc ν tb nl (cs.flatMap svgMarker ++ body)))
-      ⟨s.circles, s.sectors, s.edgePaths, s.texts.map plainOf⟩ = true := by
+      ⟨s.circles, s.sectors, s.edgePaths, s.texts⟩ = true := by
   have hin : Inner (cs.flatMap svgMarker ++ body) :=
     Inner.append (Inner.flatMap_mem _ _ (fun c hc => svgMarker_inner (hcs c hc))) hi
   have hwf := svgDoc_wf hν tb nl hin
@@ -382,8 +382,8 @@ theorem dendroStep_shape {ν : Nums} {a : DendroArgs} {n t k : Nat} {st st' : Tr
        subst h
        exact (Shape.append hst (dendroPaths_shape ν _ _)).cast (by simp [Summary.add]; omega))
 
-theorem dendroTree_shape {ν : Nums} {a : DendroArgs} {index : List Nat} {ps : List Piece}
-    (h : dendroTree ν a index = .ok ps) : Shape ps ⟨0, 0, 3 * (index.length - 1), []⟩ := by
+theorem dendroTree_shape {ν : Nums} {a : DendroArgs} {cut index : List Nat} {ps : List Piece}
+    (h : dendroTree ν a cut index = .ok ps) : Shape ps ⟨0, 0, 3 * (index.length - 1), []⟩ := by
   unfold dendroTree at h
   simp only [bind, Except.bind, pure, Except.pure] at h
   split at h
